@@ -22,6 +22,7 @@ pub fn spec_for(prop: &str) -> Option<Spec> {
         "C20" => Spec { gen: crate::dev_gen::generate, quick_runs: 20_000, thorough_runs: 1_000_000 },
         "C02" => Spec { gen: crate::comb::generate, quick_runs: 40_000, thorough_runs: 2_000_000 },
         "C03" => Spec { gen: gen_c03, quick_runs: 40_000, thorough_runs: 2_000_000 },
+        "C15" => Spec { gen: crate::settable::generate, quick_runs: 30_000, thorough_runs: 1_500_000 },
         _ => return None,
     })
 }
@@ -32,6 +33,7 @@ pub fn execute(plan: &Plan, ctx: &mut Ctx) {
         "device" => crate::dev_oracles::execute(plan, ctx),
         "comb" => crate::comb::execute(plan, ctx),
         "datum" => crate::datumop::execute(plan, ctx),
+        "settable" => crate::settable::execute(plan, ctx),
         other => ctx.violate("HARNESS", "unknown_world", other, format!("unknown world {:?}", other)),
     }
 }
@@ -41,6 +43,7 @@ pub fn simplify(plan: &Plan) -> Vec<Plan> {
         "node" => crate::node_gen::simplify(plan),
         "device" => crate::dev_gen::simplify(plan),
         "comb" => crate::comb::simplify(plan),
+        "settable" => crate::settable::simplify(plan),
         _ => Vec::new(),
     }
 }
